@@ -171,6 +171,39 @@ pub fn build_space(g: &Grammar, thorough: bool) -> Vec<CDoc> {
         all.extend(corpus::deviations(g, b));
     }
     all.extend(corpus::missing_required(g));
+    // integer literals at, inside and beyond the limits of every integer parameter, decimal and hex (a hex literal is a bit
+    // pattern of at most the width of the field): the reference interpreter decides which ones are in the language
+    for b in corpus::carriers(g) {
+        if b.path.is_empty() {
+            continue;
+        }
+        let node = b.doc.root.at(&b.path).clone();
+        if !node.known || node.raw.is_some() {
+            continue;
+        }
+        for (pi, p) in node.params.iter().enumerate() {
+            if !p.ty.is_int() {
+                continue;
+            }
+            let (lo, hi) = p.ty.int_min_max().unwrap();
+            let (bits, _) = p.ty.int_shape().unwrap();
+            let mut lits = crate::c01::int_literals(&p.ty);
+            lits.push(("max+1".into(), (hi + 1).to_string()));
+            lits.push(("min-1".into(), (lo - 1).to_string()));
+            if bits < 64 {
+                lits.push(("hex-one-bit-too-wide".into(), format!("0x{:X}", 1u128 << bits)));
+            } else {
+                lits.push(("hex-one-digit-too-wide".into(), "0x10000000000000000".into()));
+            }
+            for (n, lit) in lits {
+                let mut d2 = b.clone();
+                d2.doc.root.at_mut(&b.path).params[pi].text = lit;
+                d2.label = format!("{} + int({},{n})", b.label, p.field);
+                d2.deviations = 1;
+                all.push(d2);
+            }
+        }
+    }
     let mut valid = base.clone();
     valid.extend(corpus::opt_docs(g, 2));
     valid.extend(corpus::enum_docs(g));
